@@ -80,6 +80,20 @@ def _as_comprehension(loop: ast.For, acc: str, kind: str) -> Optional[ast.expr]:
             node = node.body[0]
         else:
             break
+    # acc += E  /  acc.extend(E)  inside the loop nest: one more generator over E
+    if kind == "list" and gens and _mentions(loop, acc) == 1:
+        more = None
+        if isinstance(node, ast.AugAssign) and isinstance(node.op, ast.Add) and isinstance(node.target, ast.Name) and node.target.id == acc:
+            more = node.value
+        elif isinstance(node, ast.Expr) and isinstance(node.value, ast.Call) and isinstance(node.value.func, ast.Attribute) \
+                and isinstance(node.value.func.value, ast.Name) and node.value.func.value.id == acc \
+                and node.value.func.attr == "extend" and len(node.value.args) == 1 and not node.value.keywords:
+            more = node.value.args[0]
+        if more is not None and not isinstance(more, ast.Starred):
+            var = "__sa_item__"
+            gens.append(ast.comprehension(target=ast.Name(id=var, ctx=ast.Store()), iter=more, ifs=[], is_async=0))
+            comp = ast.ListComp(elt=ast.Name(id=var, ctx=ast.Load()), generators=gens)
+            return ast.copy_location(comp, loop)
     if not (isinstance(node, ast.Expr) and isinstance(node.value, ast.Call) and isinstance(node.value.func, ast.Attribute)
             and isinstance(node.value.func.value, ast.Name) and node.value.func.value.id == acc
             and node.value.func.attr == ("append" if kind == "list" else "add")
@@ -549,6 +563,31 @@ def _continue_guards(body: List[ast.stmt]) -> List[ast.stmt]:
     return body
 
 
+def _first_match(init: ast.stmt, loop: ast.stmt) -> Optional[ast.Assign]:
+    """X = D; for x in XS: if C: X = E; break        ->      X = next((E for x in XS if C), D)"""
+    if not (isinstance(init, ast.Assign) and len(init.targets) == 1 and isinstance(init.targets[0], ast.Name)):
+        return None
+    X = init.targets[0].id
+    if not (isinstance(loop, ast.For) and not loop.orelse and isinstance(loop.target, ast.Name) and len(loop.body) == 1):
+        return None
+    first = loop.body[0]
+    if not (isinstance(first, ast.If) and not first.orelse and len(first.body) == 2 and isinstance(first.body[1], ast.Break)):
+        return None
+    st = first.body[0]
+    if not (isinstance(st, ast.Assign) and len(st.targets) == 1 and isinstance(st.targets[0], ast.Name) and st.targets[0].id == X):
+        return None
+    if any(isinstance(n, ast.Name) and n.id == X for n in ast.walk(first.test)) or \
+            any(isinstance(n, ast.Name) and n.id == X for n in ast.walk(st.value)) or \
+            any(isinstance(n, ast.Name) and n.id == X for n in ast.walk(loop.iter)):
+        return None
+    gen = ast.GeneratorExp(elt=st.value, generators=[ast.comprehension(target=loop.target, iter=loop.iter, ifs=[first.test], is_async=0)])
+    new = ast.Assign(targets=[ast.Name(id=X, ctx=ast.Store())],
+                     value=ast.Call(func=ast.Name(id="next", ctx=ast.Load()), args=[gen, init.value], keywords=[]))
+    ast.copy_location(new, loop)
+    ast.fix_missing_locations(new)
+    return new
+
+
 def _any_loop(loop: ast.stmt) -> Optional[ast.If]:
     """for x in XS:                       ->   if any(C for x in XS): BODY  [else: ELSE]
            if C: BODY; break
@@ -571,6 +610,71 @@ def _any_loop(loop: ast.stmt) -> Optional[ast.If]:
     ast.copy_location(new, loop)
     ast.fix_missing_locations(new)
     return new
+
+
+def _try_as_guard(t: ast.Try) -> Optional[ast.stmt]:
+    """try: X = xs[0] (or xs[-1])            ->   X = xs[0] if xs else D
+       except IndexError: X = D
+       try: next(it)                         ->   next(it, None)
+       except StopIteration: pass
+    (one statement in the body, one handler naming exactly that exception, no else / finally)"""
+    if t.orelse or t.finalbody or len(t.handlers) != 1 or len(t.body) != 1:
+        return None
+    h = t.handlers[0]
+    exc = h.type.id if isinstance(h.type, ast.Name) else None
+    b = t.body[0]
+    if exc == "IndexError" and h.name is None and len(h.body) == 1 and isinstance(b, ast.Assign) and isinstance(h.body[0], ast.Assign) \
+            and len(b.targets) == 1 and len(h.body[0].targets) == 1 and isinstance(b.targets[0], ast.Name) \
+            and isinstance(h.body[0].targets[0], ast.Name) and b.targets[0].id == h.body[0].targets[0].id \
+            and isinstance(b.value, ast.Subscript) and isinstance(b.value.value, (ast.Name, ast.Attribute)):
+        k = b.value.slice
+        is0 = isinstance(k, ast.Constant) and k.value == 0
+        ism1 = isinstance(k, ast.UnaryOp) and isinstance(k.op, ast.USub) and isinstance(k.operand, ast.Constant) and k.operand.value == 1
+        calls = any(isinstance(x, ast.Call) for x in ast.walk(b.value))
+        if (is0 or ism1) and not calls:
+            new = ast.Assign(targets=[ast.Name(id=b.targets[0].id, ctx=ast.Store())],
+                             value=ast.IfExp(test=copy.deepcopy(b.value.value), body=b.value, orelse=h.body[0].value))
+            ast.copy_location(new, t)
+            ast.fix_missing_locations(new)
+            return new
+    if exc == "IndexError" and h.name is None and len(h.body) == 1 and isinstance(b, ast.Assign) and len(b.targets) == 1 \
+            and isinstance(b.targets[0], ast.Tuple) and isinstance(b.value, ast.Tuple) and len(b.targets[0].elts) == len(b.value.elts) \
+            and all(isinstance(x, ast.Name) for x in b.targets[0].elts) and isinstance(h.body[0], ast.Assign):
+        names = [x.id for x in b.targets[0].elts]
+        hb = h.body[0]
+        # handler: a = b = D   or   a, b = D1, D2
+        defaults = None
+        if all(isinstance(x, ast.Name) for x in hb.targets) and sorted(x.id for x in hb.targets) == sorted(names):
+            defaults = {n: hb.value for n in names}
+        elif len(hb.targets) == 1 and isinstance(hb.targets[0], ast.Tuple) and isinstance(hb.value, ast.Tuple) \
+                and [getattr(x, "id", None) for x in hb.targets[0].elts] == names and len(hb.value.elts) == len(names):
+            defaults = dict(zip(names, hb.value.elts))
+        subs = b.value.elts
+        same = len({ast.dump(x.value) for x in subs if isinstance(x, ast.Subscript)}) == 1 and all(isinstance(x, ast.Subscript) for x in subs)
+
+        def edge(k):
+            return (isinstance(k, ast.Constant) and k.value == 0) or (
+                isinstance(k, ast.UnaryOp) and isinstance(k.op, ast.USub) and isinstance(k.operand, ast.Constant) and k.operand.value == 1)
+        if defaults is not None and same and all(edge(x.slice) for x in subs) and isinstance(subs[0].value, (ast.Name, ast.Attribute)) \
+                and not any(isinstance(y, ast.Call) for x in subs for y in ast.walk(x)) \
+                and not any(isinstance(y, ast.Name) and y.id in names for d in defaults.values() for y in ast.walk(d)):
+            out = []
+            for n, sub in zip(names, subs):
+                new = ast.Assign(targets=[ast.Name(id=n, ctx=ast.Store())],
+                                 value=ast.IfExp(test=copy.deepcopy(sub.value), body=sub, orelse=copy.deepcopy(defaults[n])))
+                ast.copy_location(new, t)
+                ast.fix_missing_locations(new)
+                out.append(new)
+            return out
+    if exc == "StopIteration" and h.name is None and len(h.body) == 1 and isinstance(h.body[0], ast.Pass) \
+            and isinstance(b, ast.Expr) and isinstance(b.value, ast.Call) and isinstance(b.value.func, ast.Name) \
+            and b.value.func.id == "next" and len(b.value.args) == 1 and not b.value.keywords:
+        new = ast.Expr(value=ast.Call(func=ast.Name(id="next", ctx=ast.Load()), args=[b.value.args[0], ast.Constant(value=None)],
+                                      keywords=[]))
+        ast.copy_location(new, t)
+        ast.fix_missing_locations(new)
+        return new
+    return None
 
 
 def _simple_subject(e: ast.expr) -> bool:
@@ -687,6 +791,11 @@ class _Desugar(ast.NodeTransformer):
 
     visit_AsyncFunctionDef = visit_FunctionDef
 
+    def visit_Try(self, node):
+        self.generic_visit(node)
+        r = _try_as_guard(node)
+        return r if r is not None else node
+
     def visit_Match(self, node):
         self.generic_visit(node)
         r = _match_to_if(node)
@@ -701,6 +810,12 @@ class _Desugar(ast.NodeTransformer):
         k = 0
         while k < len(stmts):
             s = stmts[k]
+            if k + 1 < len(stmts):
+                fm = _first_match(s, stmts[k + 1])
+                if fm is not None:
+                    pre.append(fm)
+                    k += 2
+                    continue
             if k + 1 < len(stmts):
                 r = while_index_to_for(s, stmts[k + 1], stmts[k + 2:])
                 if r is not None:
